@@ -329,13 +329,11 @@ theorem addMulExt_ok {t : IntTy} {π : Policy} (w : t.WF π) (hl : t.LargerOK) (
         simp only [Ext.ofCls]
         rw [Ext.addI_nan_right]
         exact okNanReason w dir h0 rfl
-theorem subMulExt_ok_partial {t : IntTy} {π : Policy} (w : t.WF π) (hl : t.LargerOK) (hco : π.checkOverflow = true)
+theorem subMulExt_ok {t : IntTy} {π : Policy} (w : t.WF π) (hl : t.LargerOK) (hco : π.checkOverflow = true)
     (dir : Dir) {to0 x y : Int} (h0 : t.inRange to0) (hx : t.inRange x) (hy : t.inRange y)
     (hpre : π.checkInfSubInf = true ∨
       ¬ ((t.denote π to0 = .minf ∧ Ext.mulI (t.denote π x) (t.denote π y) = .minf) ∨
-         (t.denote π to0 = .pinf ∧ Ext.mulI (t.denote π x) (t.denote π y) = .pinf)))
-    (side : t.finite π to0 → t.finite π x → t.finite π y →
-      (π.hasNan = true ∨ t.signed = false ∨ ¬ (to0 = 0 ∧ x * y = t.emax π + 1))) :
+         (t.denote π to0 = .pinf ∧ Ext.mulI (t.denote π x) (t.denote π y) = .pinf))) :
     OK t π dir (subMulExt t π to0 x y dir) (Ext.subI (t.denote π to0) (Ext.mulI (t.denote π x) (t.denote π y))) := by
   unfold Ext.subI
   unfold subMulExt
@@ -361,7 +359,7 @@ theorem subMulExt_ok_partial {t : IntTy} {π : Policy} (w : t.WF π) (hl : t.Lar
       · simp only [b, if_true, d, Ext.addI]; exact okMinf w dir h0
       · simp only [b, c, Bool.false_eq_true, if_false, if_true, d, Ext.addI]; exact okPinf w dir h0
       · simp only [b, c, Bool.false_eq_true, if_false, d, Ext.addI]
-        have := subMul_ok_partial w hl hco dir f fx fy (side f fx fy)
+        have := subMul_ok w hl hco dir f fx fy
         simpa [Int.sub_eq_add_neg] using this
     · rw [e, hm]
       rw [hm] at hpre
